@@ -7,7 +7,7 @@
    nested rules are flattened (C07_rotation / C02_flatten normal forms). *)
 From Coq Require Import String.
 From Coq Require Import List Ascii Bool NArith.
-Require Import Model.Text Model.Ast Model.Scope Model.Ident Model.Fmt Model.Eval Proofs.EvalProofs Proofs.MediaProofs Proofs.ScopeProofs.
+Require Import Model.Text Model.Ast Model.Scope Model.Ident Model.Fmt Model.Eval Proofs.EvalProofs Proofs.MediaProofs Proofs.ScopeProofs Proofs.AmpProofs.
 Import ListNotations.
 
 (* what is printed for a tree of rules and @media blocks is a list of ordinary rules followed by @media
@@ -31,3 +31,15 @@ Theorem C10_no_unresolved_variable :
     eval_value (S fuel) sc (VVar x :: rest) = RError $"SyntaxError" ($"Unknown variable " ++ x).
 Proof. exact unbound_is_error. Qed.
 Print Assumptions C10_no_unresolved_variable.
+
+(* no '&' reaches the output: whatever the child selector looks like (any number of '&', anywhere), combining it with a
+   non-empty list of '&'-free parent selectors gives '&'-free selectors; at the top level nothing is added to what was written *)
+Theorem C10_no_ampersand_nested :
+  forall pp toks, pp <> [] -> forallb amp_free pp = true -> forallb amp_free (ident_parse (Some pp) toks) = true.
+Proof. exact ident_parse_nested_free. Qed.
+Print Assumptions C10_no_ampersand_nested.
+
+Theorem C10_no_ampersand_top :
+  forall toks, forallb not_amp toks = true -> forallb amp_free (ident_parse None toks) = true.
+Proof. exact ident_parse_top_free. Qed.
+Print Assumptions C10_no_ampersand_top.
